@@ -265,11 +265,12 @@ class PanicExpr(ast.expr):
     """A `panic(msg, *args)` or `exit(msg, *args)` expression ."""
 
     kind: ExitKind
-    signal: ast.expr
     msg: ast.expr
+    signal: ast.expr
     values: list[ast.expr]
 
-    _fields = ("kind", "signal", "msg", "values")
+    # Fields are listed in the order in which they are evaluated
+    _fields = ("kind", "msg", "signal", "values")
 
 
 class BarrierExpr(ast.expr):
